@@ -257,7 +257,7 @@ def run(ctx):
     ctx.rule = ("project of %d files (plain, library, importer, built-and-imported, importer of a built file, static type error, runtime "
                 "failure, one library under two spellings, failure after importing a built file, failure after out, files only the checker refuses and their importers, xml and yamlmulti conversions that fail late or succeed). E2: BFS over the real Environment to depth %d with events build(f), canonical "
                 "state key (val_cache, shape_cache, out_lock, collector), invariant result = result alone on every transition. E3: every "
-                "ordered sequence of 1..%d distinct files in one `ucg build` invocation run twice in the same directory (quick: all of length <= 2 and a sixth of length 3), the sequences of length <= 2 once more with every file named ./f, plus build -r." % (len(FILES), depth, seqlen))
+                "ordered sequence of 1..%d distinct files in one `ucg build` invocation run twice in the same directory (quick: all of length <= 2 and a sixth of length 3; thorough: length 4 over the first 13 files), the sequences of length <= 2 once more with every file named ./f, plus build -r." % (len(FILES), depth, seqlen))
     viol = []
     # E2 BFS
     seen = {}
@@ -287,7 +287,8 @@ def run(ctx):
     ctx.coverage_extra["e2_frontier_left"] = len(frontier)
     # E3
     base = baseline_cli()
-    seqs = [(o, "args", base) for ln in range(1, seqlen + 1) for o in itertools.permutations(FILES, ln)]
+    # sequences of length 4 (thorough) over the first 13 files only: over all 19 they are 93 024, two hours of builds
+    seqs = [(o, "args", base) for ln in range(1, seqlen + 1) for o in itertools.permutations(FILES if ln <= 3 else FILES[:13], ln)]
     seqs.append((tuple(FILES), "recursive", base))
     if not thorough:
         # quick: all sequences of length <= 2 and a sixth of the length-3 sequences (every ordered pair occurs as a prefix at least twice)
